@@ -2,7 +2,8 @@
 import ast
 
 from .model import AnalysisError, node_src, is_self_attr, call_name, fold, NotConst
-from .paths import Interp, Domain, Env, TOP, NONE, Const, TupleV, Exc, ORD, ASYNC, fmt_trace, Opaque, Ctx
+from .paths import Interp, Domain, Env, TOP, NONE, Const, TupleV, Exc, ORD, ASYNC, fmt_trace, Opaque, Ctx, FuncRef, LambdaV
+from .colls import ExactCollections, GenV, deref, fold_method, lower_value, NotConcrete
 from .report import walk_no_nested
 
 LEVEL = "other"
@@ -246,6 +247,151 @@ class CloseDomain(Domain):
         return TOP if not isinstance(objval, Opaque) else ("meth", objval, node.attr)
 
 
+class DiscoveryDomain(ExactCollections, Domain):
+    """_get_nodes_list interpreted on a scripted `config get cluster` reply: pure str/bytes methods on constants are
+    folded, the discovery client is an object whose construction and commands are recorded."""
+
+    async_enabled = False
+    subscript_may_raise = False
+    unpack_may_raise = False
+    global_keys = ("log", "imprecise")
+
+    def __init__(self, prog, fn, use_vpc, reply):
+        super().__init__(prog, fn)
+        self.use_vpc = use_vpc
+        self.reply = reply
+
+    def mark_imprecise(self, state, node):
+        return state.set("imprecise", 1)
+
+    def name_load(self, name, state, node=None):
+        if state.has(name):
+            return state.get(name)
+        if name in ("Client", "PooledClient"):
+            return Opaque("class:" + name)
+        if self.fn is not None and name in self.fn.module.functions:
+            return FuncRef(name)
+        return TOP
+
+    def attr_load(self, objval, node, state):
+        b = self.coll_attr(objval, node)
+        if b is not None:
+            return b
+        if is_self_attr(node, "_use_vpc"):
+            return Const(self.use_vpc)
+        if is_self_attr(node, "_cfg_node"):
+            return Const("cluster.abc123.cfg.use1.cache.amazonaws.com:11211")
+        if is_self_attr(node):
+            return state.get("self." + node.attr, TOP)
+        if isinstance(objval, Const):
+            return ("cmeth", objval, node.attr)
+        if objval == Opaque("cfg-client"):
+            return ("client-meth", node.attr)
+        if isinstance(node.value, ast.Name) and node.value.id in ("operator", "logger", "logging"):
+            return Opaque("%s.%s" % (node.value.id, node.attr))
+        return TOP
+
+    def _apply(self, node, f, arg, state):
+        """f(arg) for the callables that can be mapped over the node descriptions."""
+        if isinstance(f, tuple) and f and f[0] == "methodcaller":
+            r = fold_method(arg, f[1], list(f[2]), {}, node.lineno)
+            if r is not None and r[0][0] == "ok":
+                return r[0][1]
+        return TOP
+
+    def call(self, node, fval, args, kwargs, state):
+        r = self.coll_call(node, fval, args, kwargs, state)
+        if r is not None:
+            return r
+        name = call_name(node)
+        if isinstance(fval, Opaque) and fval.tag.startswith("class:"):
+            srv = args[0] if args else kwargs.get("server", TOP)
+            try:
+                ep = lower_value(srv)
+            except NotConcrete:
+                ep = str(srv)
+            return [("ok", Opaque("cfg-client"), state.set("log", state.get("log", ()) + (("client", ep),)))]
+        if isinstance(fval, tuple) and fval and fval[0] == "client-meth":
+            if fval[1] == "raw_command":
+                cmd = args[0] if args else kwargs.get("command", TOP)
+                et = args[1] if len(args) > 1 else kwargs.get("end_tokens", Const(None))
+                rec = ("command", (cmd.v if isinstance(cmd, Const) else str(cmd), et.v if isinstance(et, Const) else str(et)))
+                return [("ok", Const(self.reply), state.set("log", state.get("log", ()) + (rec,)))]
+            return [("ok", NONE, state)]
+        if isinstance(fval, tuple) and fval and fval[0] == "cmeth":
+            r = fold_method(fval[1], fval[2], args, kwargs, node.lineno)
+            if r is not None:
+                return [(k, v, state) for k, v in r]
+            return [("ok", TOP, state)]
+        if fval == Opaque("operator.methodcaller") and args and isinstance(args[0], Const):
+            return [("ok", ("methodcaller", args[0].v, tuple(args[1:])), state)]
+        if fval == Opaque("operator.itemgetter") and args:
+            return [("ok", TOP, state)]
+        if name == "map" and len(args) == 2:
+            seq, st = self.consume(args[1], state)
+            if seq is not None:
+                if isinstance(args[0], LambdaV):
+                    out = []
+                    for x in seq:
+                        rr = self.apply_lambda(node, args[0], [x], {}, st)
+                        if not rr or len(rr) != 1 or rr[0][0] != "ok":
+                            return [("ok", TOP, st)]
+                        out.append(rr[0][1])
+                        st = rr[0][2]
+                    return [("ok", GenV((node.lineno, node.col_offset), tuple(out)), st)]
+                return [("ok", GenV((node.lineno, node.col_offset), tuple(self._apply(node, args[0], x, st) for x in seq)), st)]
+            return [("ok", TOP, state)]
+        if name in ("int", "str") and len(args) == 1 and isinstance(args[0], Const):
+            try:
+                return [("ok", Const(int(args[0].v) if name == "int" else str(args[0].v)), state)]
+            except Exception as e:
+                return [("exc", Exc(ORD, type(e).__name__, node.lineno), state)]
+        if isinstance(fval, Opaque) and (fval.tag.startswith("logger.") or fval.tag.startswith("logging.")):
+            return [("ok", NONE, state)]
+        if isinstance(fval, FuncRef) and self.fn is not None and fval.name in self.fn.module.functions:
+            res = self.inline(node, self.fn.module.functions[fval.name], args, kwargs, state)
+            if res is not None:
+                return res
+        if name.startswith("self._") and name.count(".") == 1 and self.prog is not None and self.fn is not None and self.fn.cls is not None:
+            m = self.prog.method(self.fn.cls, name[5:], required=False)
+            if m is not None and m is not self.fn:
+                res = self.inline(node, m, args, kwargs, state)
+                if res is not None:
+                    return res
+        return [("ok", TOP, state)]
+
+
+def discovery_rows(prog, gnl):
+    """-> [(use_vpc, description of the reply, node list returned | text, expected node list, [info per path])]"""
+    replies = [
+        ("two nodes", b"CONFIG cluster 0 147\r\n12\nnode1.cache.amazonaws.com|10.0.0.1|11211 node2.cache.amazonaws.com|10.0.0.2|11212", [("node1.cache.amazonaws.com", "10.0.0.1", "11211"), ("node2.cache.amazonaws.com", "10.0.0.2", "11212")]),
+        ("one node", b"CONFIG cluster 0 64\r\n3\nn.cache.amazonaws.com|172.16.0.9|11300", [("n.cache.amazonaws.com", "172.16.0.9", "11300")]),
+    ]
+    rows = []
+    for use_vpc in (0, 1):
+        for desc, reply, triples in replies:
+            dom = DiscoveryDomain(prog, gnl, use_vpc, reply)
+            outs = Interp(dom, gnl.node, prog).run(Env())
+            want = tuple((t[use_vpc], t[2]) for t in triples)
+            got, info = None, []
+            rets = outs.of("ret")
+            vals = set()
+            for s_, v, t in rets:
+                log = s_.get("log", ())
+                info.append({"command": next((x[1] for x in log if x[0] == "command"), None) if sum(1 for x in log if x[0] == "command") == 1 else tuple(x[1] for x in log if x[0] == "command"), "endpoint": next((x[1] for x in log if x[0] == "client"), None)})
+                try:
+                    vals.add(lower_value(deref(v, s_)))
+                except NotConcrete:
+                    vals.add("<not a constant list: %s>" % (deref(v, s_),))
+            if outs.of("exc"):
+                vals.add("<raises %s>" % sorted({str(e.cls) for s_, e, t in outs.of("exc")}))
+            got = next(iter(vals)) if len(vals) == 1 else tuple(sorted(map(str, vals)))
+            if isinstance(got, tuple) and all(isinstance(x, tuple) and len(x) == 2 for x in got):
+                got = tuple((x[0], str(x[1])) for x in got)  # a port converted to int is the same address
+            rows.append((use_vpc, desc, got, want, info))
+    return rows
+
+
 def run(chk):
     prog = chk.prog
     aws = prog.cls("AWSElastiCacheHashClient")
@@ -346,39 +492,20 @@ def run(chk):
     asg = [n for n in walk_no_nested(init.node) if isinstance(n, ast.Assign) and any(is_self_attr(t, "_use_vpc") for t in n.targets)]
     ok = len(asg) == 1 and isinstance(asg[0].value, ast.Call) and call_name(asg[0].value) in ("int", "bool") and len(asg[0].value.args) == 1 and isinstance(asg[0].value.args[0], ast.Name) and asg[0].value.args[0].id == "use_vpc"
     r4.expect(ok, "self._use_vpc = int(use_vpc)", "AWSElastiCacheHashClient.__init__:use_vpc", "self._use_vpc is `%s`, not int(use_vpc)" % (node_src(asg[0].value) if asg else None), fn=init)
-    comp = [n for n in walk_no_nested(gnl.node) if isinstance(n, (ast.ListComp, ast.GeneratorExp)) and isinstance(n.elt, ast.Tuple) and len(n.elt.elts) == 2]
-    ok = False
-    why = "no (host, port) comprehension found"
-    if len(comp) == 1:
-        h, p = comp[0].elt.elts
-        tgt = comp[0].generators[0].target
-        tv = tgt.id if isinstance(tgt, ast.Name) else None
-        okh = isinstance(h, ast.Subscript) and isinstance(h.value, ast.Name) and h.value.id == tv and is_self_attr(h.slice, "_use_vpc")
-        okp = isinstance(p, ast.Subscript) and isinstance(p.value, ast.Name) and p.value.id == tv and isinstance(p.slice, ast.Constant) and p.slice.value == 2
-        src = ast.unparse(comp[0].generators[0].iter)
-        oks = ("split" in src and "'|'" in src and ("split(' ')" in src or "split()" in src))
-        ok = okh and okp and oks
-        why = "host index `%s`, port index `%s`, splitting `%s`" % (node_src(h), node_src(p), src[:80])
-    r4.expect(ok, "servers = [(triple[self._use_vpc], triple[2]) for triple in (x.split('|') for x in config_line.split(' '))]", "AWSElastiCacheHashClient._get_nodes_list:address-selection", "the node list is not built as (element int(use_vpc), element 2) of each `name|ip|port` triple: %s" % why, fn=gnl)
+    rows = discovery_rows(prog, gnl)
+    for use_vpc, desc, got, want, info in rows:
+        r4.expect(got == want, "use_vpc=%d, %s -> %s" % (use_vpc, desc, want), "AWSElastiCacheHashClient._get_nodes_list:address-selection", "with use_vpc=%d and the config reply %s the node list is %s; documented: host = element %d (%s) and port = element 2 of each `name|ip|port` triple, i.e. %s" % (use_vpc, desc, got, use_vpc, "the IP address" if use_vpc else "the host name", want), fn=gnl)
+    r4.floor("discovery rows", len(rows), 4)
 
     # ------------------------------------------------------------------ R5 reply framing
-    r5 = chk.rule("C19.R5", "the config command is `config get cluster` framed by the terminator b'\\n\\r\\nEND\\r\\n'; the last line of the reply is the node list")
-    rc = [c for c in walk_no_nested(gnl.node) if isinstance(c, ast.Call) and isinstance(c.func, ast.Attribute) and c.func.attr == "raw_command"]
-    ok = False
-    if len(rc) == 1:
-        c = rc[0]
-        cmd = c.args[0] if c.args else None
-        et = None
-        for k in c.keywords:
-            if k.arg == "end_tokens":
-                et = k.value
-        if et is None and len(c.args) > 1:
-            et = c.args[1]
-        ok = isinstance(cmd, ast.Constant) and cmd.value in (b"config get cluster", "config get cluster") and isinstance(et, ast.Constant) and et.value in (b"\n\r\nEND\r\n", "\n\r\nEND\r\n")
-    r5.expect(ok, "raw_command(b'config get cluster', end_tokens=b'\\n\\r\\nEND\\r\\n')", "AWSElastiCacheHashClient._get_nodes_list:config-command", "the discovery command or its end token differ from `config get cluster` / b'\\n\\r\\nEND\\r\\n': the reply is cut at the wrong place", fn=gnl)
-    star = [n for n in walk_no_nested(gnl.node) if isinstance(n, ast.Assign) and isinstance(n.targets[0], ast.Tuple) and any(isinstance(e, ast.Starred) for e in n.targets[0].elts)]
-    ok = len(star) == 1 and isinstance(star[0].targets[0].elts[-1], ast.Name) and isinstance(star[0].value, ast.Call) and isinstance(star[0].value.func, ast.Attribute) and star[0].value.func.attr == "splitlines"
-    r5.expect(ok, "the node list is the last line of the reply", "AWSElastiCacheHashClient._get_nodes_list:last-line", "the node list is not taken as the last line of the config reply", fn=gnl)
+    r5 = chk.rule("C19.R5", "the config command is `config get cluster` framed by the terminator b'\\n\\r\\nEND\\r\\n', sent to the configuration endpoint; the last line of the reply is the node list")
+    cmds = {i["command"] for r_ in rows for i in r_[4]}
+    ok = cmds == {(b"config get cluster", b"\n\r\nEND\r\n")}
+    r5.expect(ok, "raw_command(b'config get cluster', end_tokens=b'\\n\\r\\nEND\\r\\n') exactly once per discovery", "AWSElastiCacheHashClient._get_nodes_list:config-command", "the discovery command / end token / number of commands differ from one `config get cluster` framed by b'\\n\\r\\nEND\\r\\n' (observed: %s): the reply is cut at the wrong place" % sorted(map(str, cmds)), fn=gnl)
+    eps = {i["endpoint"] for r_ in rows for i in r_[4]}
+    r5.expect(eps == {("cluster.abc123.cfg.use1.cache.amazonaws.com", "11211")}, "the discovery client connects to (host, port) of the configuration endpoint", "AWSElastiCacheHashClient._get_nodes_list:endpoint", "the discovery client is built for %s instead of the (host, port) of the configured endpoint" % sorted(map(str, eps)), fn=gnl)
+    # (that the node list is the *last* line of the reply is part of the rows above: the scripted replies carry the
+    # `CONFIG cluster 0 <n>` header and the version line in front of it)
     # delivery independence of the reader behind raw_command: the C03 rules for the token-terminated reader
     from . import rules_C03, report
 
